@@ -702,8 +702,14 @@ class StmtMixin(object):
             return []
         out = []
         v0 = None
-        if lc.variant is not None:
-            v0 = self.sp(lc.variant, h)
+        variant = lc.variant
+        if variant is None and getattr(self.spec, 'require_variants', False):
+            variant = lc.variant_opt
+            if variant is None:
+                self.add_vc('variant:loop%d' % ordn, 'variant', h, z3.BoolVal(False), s,
+                            note='no termination measure can be given for this loop: it runs until an external event')
+        if variant is not None:
+            v0 = self.sp(variant, h)
 
         def k(s2, v):
             c = self.truthy(s2, v)
@@ -714,13 +720,13 @@ class StmtMixin(object):
                     if o.kind in ('next', 'continue'):
                         self.check_invariants(lc, o.st, ordn, 'pres', s)
                         if v0 is not None:
-                            v1 = self.sp(lc.variant, o.st)
+                            v1 = self.sp(variant, o.st)
                             if v0.ty == INT:
                                 goal = z3.And(v0.z >= 0, v1.z < v0.z)
                             else:
                                 goal = z3.And(v0.z >= 0, v1.z <= v0.z - z3.RealVal('1/1000'))
                             self.add_vc('variant:loop%d' % ordn, 'variant', o.st, goal, s,
-                                        note=lc.variant)
+                                        note=variant)
                     elif o.kind == 'break':
                         res.append(Outcome('next', o.st))
                     else:
